@@ -286,3 +286,201 @@ theorem predefined_offset (n : String) (E : OffsetEnc) (hE : (n, E) ∈ Gen.C06.
   · rw [hd]; simp [hlt, offset_roundtrip E.minCode b hb]
 
 end C06
+
+namespace C06
+open Base
+
+/-! ## responses to the independent review -/
+
+/-- decoded text of an alphabet without lower-case letters has none -/
+theorem specDecode_noLower (alph : List Nat) (hno : alph.all (fun b => !isLower b) = true) :
+    ∀ (cs : List Nat) (t : Bytes), specDecode alph cs = some t → t.all (fun b => !isLower b) = true := by
+  intro cs
+  unfold specDecode
+  induction cs with
+  | nil => intro t h; simp at h; subst h; rfl
+  | cons c cs ih =>
+    intro t h
+    obtain ⟨b, bs, hb, hbs, rfl⟩ := omap_cons_eq_some _ c cs t h
+    have hmem : b ∈ alph := List.mem_of_getElem? hb
+    have := List.all_eq_true.mp hno b hmem
+    simp only [List.all_cons, Bool.and_eq_true]
+    exact ⟨this, ih bs hbs⟩
+
+/-- **C06.change_encoding_same_text** — `change_encoding` between two alphabets without lower-case letters (every
+`AlphabetEncoding` upper-cases its alphabet on construction; `tableOK` checks it for the predefined ones): a returned
+result decodes, with the target alphabet, to EXACTLY the text the data denoted under the source alphabet. -/
+theorem change_encoding_same_text (src tgt : List Nat) (hs : src.all (fun b => !isLower b) = true)
+    (ht : tgt.all (fun b => !isLower b) = true) (d d' : List Nat) (h : changeEncoding src tgt d = some d') :
+    ∃ text, specDecode src d = some text ∧ specDecode tgt d' = some text := by
+  obtain ⟨text, h1, h2⟩ := change_encoding_sound src tgt ht d d' h
+  refine ⟨text, h1, ?_⟩
+  rw [h2, map_toUpper_id text (specDecode_noLower src hs d text h1)]
+
+/-- the guard on the source is needed (the reviewer's witness: a lower-case "alphabet") -/
+example : changeEncoding [97] [65] [0] = some [0] ∧ specDecode [97] [0] = some [97] ∧ specDecode [65] [0] = some [65] := by decide
+
+/-- ragged input on the TABLE model the driver runs (`encode E rows.flatten`, `decode E`, `unflatten`) -/
+theorem ragged_shape_table (E : Enc) (h : tableOK E = true) (rows : List Bytes) (hs : ∀ b ∈ rows.flatten, b < 256)
+    (cs : List Nat) (he : encode E rows.flatten = some cs) :
+    (decode E cs).map (unflatten (rows.map List.length)) = some (rows.map (·.map toUpper)) := by
+  rw [encode_eq_spec E h _ hs] at he
+  rw [decode_eq_spec E h]
+  exact ragged_shape E.alphabet (tableOK_noLower E h) rows cs he
+
+/-- rows are encoded independently: the flat formulation equals the row-wise one -/
+theorem omap_flatten {α β} (f : α → Option β) : ∀ (rows : List (List α)),
+    omap f rows.flatten = (omap (omap f) rows).map List.flatten := by
+  intro rows
+  induction rows with
+  | nil => rfl
+  | cons r rs ih =>
+    rw [List.flatten_cons, omap_append, ih]
+    simp only [omap]
+    cases omap f r <;> cases omap (omap f) rs <;> simp
+
+/-- the error clause: encoding fails exactly when an offending character exists, and the reported offset is the
+FIRST offending position (every earlier character is accepted, the one at the offset is not) -/
+theorem encode_none_iff (E : Enc) (h : tableOK E = true) (s : Bytes) (hs : ∀ b ∈ s, b < 256) :
+    encode E s = none ↔ (firstBad E s).isSome = true := by
+  rw [firstBad_spec E h s hs]
+  have hiff := encode_iff E h s hs
+  have hex : (s.findIdx (fun b => !accepts E.alphabet b) < s.length) ↔ ∃ x ∈ s, (!accepts E.alphabet x) = true :=
+    List.findIdx_lt_length
+  simp only
+  constructor
+  · intro hn
+    have hnot : ¬ ∀ b ∈ s, accepts E.alphabet b = true := fun hall => by
+      have := hiff.mpr hall; rw [hn] at this; simp at this
+    have hx : ∃ x ∈ s, (!accepts E.alphabet x) = true :=
+      Classical.byContradiction (fun hc => hnot (fun b hb => by
+        cases hacc : accepts E.alphabet b with
+        | true => rfl
+        | false => exact absurd ⟨b, hb, by simp [hacc]⟩ hc))
+    simp [hex.mpr hx]
+  · intro hsome
+    cases he : encode E s with
+    | none => rfl
+    | some cs =>
+      have hall := hiff.mp (by simp [he])
+      have hnlt : ¬ (s.findIdx (fun b => !accepts E.alphabet b) < s.length) := fun hlt => by
+        obtain ⟨x, hx, hp⟩ := hex.mp hlt
+        simp [hall x hx] at hp
+      simp [hnlt] at hsome
+
+theorem firstBad_least (E : Enc) (h : tableOK E = true) (s : Bytes) (hs : ∀ b ∈ s, b < 256) (i : Nat)
+    (hi : firstBad E s = some i) :
+    (∃ hlt : i < s.length, accepts E.alphabet s[i] = false) ∧ ∀ j (hj : j < i) (hjl : j < s.length), accepts E.alphabet s[j] = true := by
+  rw [firstBad_spec E h s hs] at hi
+  simp only at hi
+  split at hi
+  · rename_i hlt
+    simp only [Option.some.injEq] at hi
+    subst hi
+    refine ⟨⟨hlt, ?_⟩, ?_⟩
+    · have := List.findIdx_getElem (w := hlt)
+      simpa using this
+    · intro j hj hjl
+      have := List.not_of_lt_findIdx hj
+      simpa using this
+  · cases hi
+
+/-- codes and text determine each other: with a duplicate-free alphabet (part of `tableOK`), encoding the decoded
+text gives back the codes — no two codes share a letter -/
+theorem encode_decode (alph : List Nat) (hno : alph.all (fun b => !isLower b) = true) (hnd : alph.Nodup) :
+    ∀ (cs : List Nat) (t : Bytes), specDecode alph cs = some t → specEncode alph t = some cs := by
+  intro cs
+  unfold specDecode specEncode
+  induction cs with
+  | nil => intro t h; simp at h; subst h; rfl
+  | cons c cs ih =>
+    intro t h
+    obtain ⟨b, bs, hb, hbs, rfl⟩ := omap_cons_eq_some _ c cs t h
+    have hmem : b ∈ alph := List.mem_of_getElem? hb
+    have hlow : isLower b = false := by simpa using List.all_eq_true.mp hno b hmem
+    have hacc : accepts alph b = true := by simp [accepts, hmem]
+    have hup : toUpper b = b := by simp [toUpper, hlow]
+    have hc : c < alph.length := by
+      rcases Nat.lt_or_ge c alph.length with h' | h'
+      · exact h'
+      · rw [List.getElem?_eq_none h'] at hb; cases hb
+    have hidx : alph.idxOf b = c := by
+      have hb' : alph[c] = b := by
+        rw [List.getElem?_eq_getElem hc] at hb; exact Option.some.inj hb
+      rw [← hb']
+      exact hnd.idxOf_getElem c hc
+    apply omap_cons_some _ _ _ _ _ _ (ih bs hbs)
+    simp [specEncByte, hacc, hup, hidx]
+
+/-! ### the whole path from text (what the driver runs for `retarget` / `change`) -/
+
+/-- text → source codes → `as_encoded_array(·, target)` → decoded with the target -/
+theorem retarget_from_text (src tgt : List Nat) (hno : src.all (fun b => !isLower b) = true) (s : Bytes) (d d' : List Nat)
+    (he : specEncode src s = some d) (hr : retargetFull src tgt d = some d') :
+    specDecode tgt d' = some (s.map toUpper) :=
+  retargetFull_sound src tgt d d' _ (spec_decode_encode src hno s d he) hr
+
+/-- text → source codes → `change_encoding` → decoded with the target -/
+theorem change_from_text (src tgt : List Nat) (hs : src.all (fun b => !isLower b) = true)
+    (ht : tgt.all (fun b => !isLower b) = true) (s : Bytes) (d d' : List Nat)
+    (he : specEncode src s = some d) (hc : changeEncoding src tgt d = some d') :
+    specDecode tgt d' = some (s.map toUpper) := by
+  obtain ⟨text, h1, h2⟩ := change_encoding_same_text src tgt hs ht d d' hc
+  rw [spec_decode_encode src hs s d he] at h1
+  rw [h2, ← Option.some.inj h1]
+
+
+/-- **C06.retargetText_sound** — the function the driver runs for re-targeting: whenever it returns, the text read with
+the target alphabet is the (upper-cased) text that was encoded with the source alphabet — it never silently yields
+other letters. -/
+theorem retargetText_sound (src tgt : List Nat) (hno : src.all (fun b => !isLower b) = true) (s t : Bytes)
+    (h : retargetText src tgt s = some t) : t = s.map toUpper := by
+  unfold retargetText at h
+  cases he : specEncode src s with
+  | none => rw [he] at h; cases h
+  | some d =>
+    rw [he] at h
+    simp only [Option.bind_some] at h
+    cases hr : retargetFull src tgt d with
+    | none => rw [hr] at h; cases h
+    | some d' =>
+      rw [hr] at h
+      simp only [Option.bind_some] at h
+      rw [retarget_from_text src tgt hno s d d' he hr] at h
+      exact (Option.some.inj h).symm
+
+/-- **C06.changeText_sound** — the same for `change_encoding` -/
+theorem changeText_sound (src tgt : List Nat) (hs : src.all (fun b => !isLower b) = true)
+    (ht : tgt.all (fun b => !isLower b) = true) (s t : Bytes) (h : changeText src tgt s = some t) : t = s.map toUpper := by
+  unfold changeText at h
+  cases he : specEncode src s with
+  | none => rw [he] at h; cases h
+  | some d =>
+    rw [he] at h
+    simp only [Option.bind_some] at h
+    cases hc : changeEncoding src tgt d with
+    | none => rw [hc] at h; cases h
+    | some d' =>
+      rw [hc] at h
+      simp only [Option.bind_some] at h
+      rw [change_from_text src tgt hs ht s d d' he hc] at h
+      exact (Option.some.inj h).symm
+
+/-- ragged: rows keep their lengths and their (upper-cased) text -/
+theorem retargetRows_sound (src tgt : List Nat) (hno : src.all (fun b => !isLower b) = true) (rows out : List Bytes)
+    (h : retargetRows src tgt rows = some out) : out = rows.map (·.map toUpper) := by
+  unfold retargetRows at h
+  cases ht : retargetText src tgt rows.flatten with
+  | none => rw [ht] at h; cases h
+  | some t =>
+    rw [ht] at h
+    have := retargetText_sound src tgt hno _ t ht
+    subst this
+    simp only [Option.map_some, Option.some.injEq] at h
+    rw [← h]
+    have hm : rows.flatten.map toUpper = (rows.map (·.map toUpper)).flatten := by simp [List.map_flatten]
+    have hl : rows.map List.length = (rows.map (·.map toUpper)).map List.length := by simp [List.map_map, Function.comp_def]
+    rw [hm, hl]
+    exact unflatten_flatten _
+
+end C06
